@@ -136,3 +136,84 @@ def register(name):
         REPLAYERS[name] = f
         return f
     return deco
+
+
+@register("ip_roundtrip")
+def ip_roundtrip(fam, args):
+    """C02: fresh X does first(x) -> y; fresh Y does the opposite(y); must return x and nothing may raise."""
+    first = args["first"]
+    other = "d" if first == "a" else "a"
+
+    def run():
+        X = _mk_ip(fam, args["cfg"], args["family"])
+        Y = _mk_ip(fam, args["cfg"], args["family"])
+        try:
+            y = X.anonymize(args["x"]) if first == "a" else X.deanonymize(args["x"])
+            z = Y.deanonymize(y) if first == "a" else Y.anonymize(y)
+            return [y, z]
+        except Exception as e:
+            return ["EXC:%s" % type(e).__name__]
+    r, misses = _with_md5(fam, args, run)
+    bad = len(r) < 2 or r[1] != args["x"]
+    return dict(violated=bad, observed=r, detail="x=%d -> %r" % (args["x"], r), misses=misses)
+
+
+@register("ip_warm_inverse")
+def ip_warm_inverse(fam, args):
+    def run():
+        X = _mk_ip(fam, args["cfg"], args["family"])
+        Y = _mk_ip(fam, args["cfg"], args["family"])
+        try:
+            y = X.anonymize(args["a"])
+            for kind, x in args["warmup"]:
+                Y.anonymize(x) if kind == "a" else Y.deanonymize(x)
+            return [y, Y.deanonymize(y)]
+        except Exception as e:
+            return ["EXC:%s" % type(e).__name__]
+    r, misses = _with_md5(fam, args, run)
+    bad = len(r) < 2 or r[1] != args["a"]
+    return dict(violated=bad, observed=r, detail="a=%d -> %r" % (args["a"], r), misses=misses)
+
+
+def _is_mask_spec(x):
+    """independent spec: ones-then-zeros or zeros-then-ones (32 bit)"""
+    for k in range(33):
+        if x == (1 << k) - 1 or x == 0xFFFFFFFF ^ ((1 << k) - 1):
+            return True
+    return False
+
+
+@register("ip_match_roundtrip")
+def ip_match_roundtrip(fam, args):
+    """C02-H3 / C05-H2: token through _anonymize_match forward (X) and undo (fresh Y)."""
+    import ipaddress
+    family, cfg, a = args["family"], args["cfg"], args["a"]
+    mk = ipaddress.IPv4Address if family == 4 else ipaddress.IPv6Address
+
+    def run():
+        X = _mk_ip(fam, cfg, family)
+        Y = _mk_ip(fam, cfg, family)
+        t0 = str(mk(a))
+        try:
+            t1 = fam.ip._anonymize_match(X, t0, False)
+            t2 = fam.ip._anonymize_match(Y, t1, True)
+        except Exception as e:
+            return dict(texts=[t0, "EXC:%s" % type(e).__name__, None], values=[None, None])
+        return dict(texts=[t0, t1, t2], values=[int(mk(t1)), int(mk(t2))])
+    r, misses = _with_md5(fam, args, run)
+    v1, v2 = r["values"]
+    if v1 is None:
+        bad = True
+    elif family == 4:
+        nets = [ipaddress.ip_network(n) for n in (cfg.get("networks") or [])]
+        keep = _is_mask_spec(a) or any(mk(a) in n for n in nets)
+        if keep:
+            bad = r["texts"][1] != r["texts"][0] or r["texts"][2] != r["texts"][0]
+        elif _is_mask_spec(v1):
+            bad = v2 != v1
+        else:
+            bad = v2 != a
+    else:
+        bad = v2 != a
+    r.update(violated=bad, detail="texts=%r" % (r["texts"],), misses=misses)
+    return r
